@@ -38,13 +38,15 @@ def tests_for(files):
 
 def main(argv):
     wt, x = argv[0], argv[1]
-    tests_mode, checks = 'auto', None
+    tests_mode, checks, store_as = 'auto', None, None
     it = iter(argv[2:])
     for a in it:
         if a == '--tests':
             tests_mode = next(it)
         elif a == '--checks':
             checks = next(it).split(',')
+        elif a == '--as':
+            store_as = next(it)
     out = os.path.join(wt, 'out', x)
     meta = json.load(open(os.path.join(out, 'meta.json')))
     prop = meta['property']
@@ -92,7 +94,7 @@ def main(argv):
     ok = report['demo_clean_rc'] == 0 and report.get('demo_patched_rc') not in (0, None) and report['tests']['rc'] == 0
     print('confirmed:', ok)
     if ok:
-        dst = os.path.join(VERIF, 'seeded', '%s-%s' % (prop, x))
+        dst = os.path.join(VERIF, 'seeded', '%s-%s' % (prop, store_as or x))
         os.makedirs(dst, exist_ok=True)
         shutil.copy(os.path.join(out, 'patch.diff'), dst)
         shutil.copy(os.path.join(out, 'demo.py'), dst)
